@@ -21,6 +21,11 @@ class Undetermined(Exception):
     pass
 
 
+class UnboundLocal(Exception):
+    """A name that is local to the function being evaluated (assigned somewhere in it) is read on a path where it is not bound:
+    the real code raises UnboundLocalError there - a definite defect, not a limit of the evaluator."""
+
+
 class Term(tuple):
     """('head', arg, ...) - args are Terms or concrete Python values."""
     __slots__ = ()
@@ -184,7 +189,8 @@ class Interp(object):
         if self.depth > 40:
             raise Undetermined("call depth")
         try:
-            env = {}
+            env = {"__locals__": set(t.id for n in ast.walk(fdef) for t in ast.walk(n) if isinstance(t, ast.Name) and isinstance(t.ctx, ast.Store)),
+                   "__fname__": fdef.name}
             params = [a.arg for a in fdef.args.args]
             if self_obj is not None:
                 env[params[0]] = self_obj
@@ -305,8 +311,12 @@ class Interp(object):
         else:
             raise Undetermined("assignment target")
 
+    sym_truthy = False      # symbolic values stand for non-empty strings (text builders): truthy
+
     def truth(self, v):
         if isinstance(v, Term):
+            if self.sym_truthy and v.head in ("sx", "leaf", "seq", "cat"):
+                return True
             raise Undetermined("branch on a symbolic value %r" % (v,))
         return bool(v)
 
@@ -339,6 +349,8 @@ class Interp(object):
                 return ("__ext__", e.id)
             if e.id in ("range", "len", "list", "tuple", "map", "int", "str", "reversed", "enumerate", "zip", "min", "max", "abs", "sorted", "isinstance", "hex", "bool", "sum"):
                 return ("__builtin__", e.id)
+            if e.id in env.get("__locals__", ()):
+                raise UnboundLocal("`%s` is read in %s before any assignment on this path (UnboundLocalError)" % (e.id, env.get("__fname__")))
             raise Undetermined("free name %s" % e.id)
         if isinstance(e, ast.Attribute):
             base = self.ev(e.value, env)
